@@ -57,8 +57,8 @@ pub mod c17 {
         }
     }
 
-    /// every record appended comes back byte-identical by random read, sequential read, iteration and parse_record
-    pub fn roundtrip<const H: usize>(n: usize, start: u64) {
+    /// every record appended comes back byte-identical through the given read path
+    pub fn roundtrip<const H: usize>(n: usize, start: u64, path: u8) {
         let mut w = Writer::<H>::verif_new(fmodel::fake_file(), SEG, start);
         let fl = w.flushed_offset();
         let d = any_bytes();
@@ -67,9 +67,8 @@ pub mod c17 {
         assert!(l == RECORD_HEAD_SIZE + H + n);
         w.sync().unwrap();
         let mut r = Reader::<H>::verif_new(fmodel::fake_file(), fl.clone());
-        let mut p = 0;
-        while p < 2 {
-            let got = r.read_record(o, if p == 1 { ReadHint::Sequential } else { ReadHint::Random });
+        if path < 2 {
+            let got = r.read_record(o, if path == 1 { ReadHint::Sequential } else { ReadHint::Random });
             match &got {
                 Ok(rec) => {
                     expect_same::<H>(&rec.header, &rec.data, &h, &d[..n]);
@@ -79,9 +78,7 @@ pub mod c17 {
                 Err(_) => assert!(false, "intact record rejected"),
             }
             std::mem::forget(got);
-            p += 1;
-        }
-        {
+        } else if path == 2 {
             let mut it = r.iter(o);
             let got = it.next_record();
             match &got {
@@ -92,17 +89,18 @@ pub mod c17 {
             let end = it.next_record();
             assert!(matches!(&end, Ok(None)), "iteration must end after the last record");
             std::mem::forget(end);
-        }
-        let vis = fl.load() as usize;
-        let got = unsafe { parse_record::<H>(&fmodel::DISK[..vis], o as usize) };
-        match &got {
-            Ok((ph, pd, used)) => {
-                expect_same::<H>(&ph[..], &pd[..], &h, &d[..n]);
-                assert!(*used == l, "parse_record consumed a different length");
+        } else {
+            let vis = fl.load() as usize;
+            let got = unsafe { parse_record::<H>(&fmodel::DISK[..vis], o as usize) };
+            match &got {
+                Ok((ph, pd, used)) => {
+                    expect_same::<H>(&ph[..], &pd[..], &h, &d[..n]);
+                    assert!(*used == l, "parse_record consumed a different length");
+                }
+                Err(_) => assert!(false, "parse_record rejected an intact record"),
             }
-            Err(_) => assert!(false, "parse_record rejected an intact record"),
+            std::mem::forget(got);
         }
-        std::mem::forget(got);
         std::mem::forget(w);
         std::mem::forget(r);
     }
@@ -137,7 +135,7 @@ pub mod c17 {
     }
 
     /// a single flipped bit in the 4-byte length field: never valid data, never a panic
-    pub fn bitflip_len<const H: usize>(n: usize, start: u64, path: u8) {
+    pub fn bitflip_len<const H: usize>(n: usize, start: u64, path: u8, lo: usize, hi: usize) {
         let mut w = Writer::<H>::verif_new(fmodel::fake_file(), SEG, start);
         let fl = w.flushed_offset();
         let d = any_bytes();
@@ -147,7 +145,7 @@ pub mod c17 {
         let (o2, l2) = w.append(&h, &d[..n]).unwrap();
         w.sync().unwrap();
         let bit: usize = kani::any();
-        kani::assume(bit < 32);
+        kani::assume(bit >= lo && bit < hi);
         corrupt(o, 0, 4, bit / 8, 1u64 << (bit % 8));
         assert!(!read_is_ok::<H>(path, &fl, o), "record with one flipped length bit returned as valid");
         std::mem::forget(w);
@@ -186,15 +184,22 @@ pub mod c17 {
         fl.verif_set(vis);
         assert!(!read_is_ok::<H>(path, &fl, o), "truncated record returned as valid");
         // and cutting the file itself (zeros after the cut, as after a crash into preallocated space)
+        let mut changed = false;
         unsafe {
             let mut i = 0;
             while i < l {
-                if o + i as u64 >= vis { fmodel::DISK[o as usize + i] = 0; }
+                if o + i as u64 >= vis {
+                    if fmodel::DISK[o as usize + i] != 0 { changed = true; }
+                    fmodel::DISK[o as usize + i] = 0;
+                }
                 i += 1;
             }
         }
         fl.verif_set(o + l as u64);
-        assert!(!read_is_ok::<H>(path, &fl, o), "record whose tail was lost (zeros) returned as valid");
+        // (if every lost byte was already zero the record is intact and may of course be returned)
+        if changed {
+            assert!(!read_is_ok::<H>(path, &fl, o), "record whose tail was lost (zeros) returned as valid");
+        }
         kani::cover!(vis > o + RECORD_HEAD_SIZE as u64);
         std::mem::forget(w);
     }
